@@ -14,6 +14,7 @@ def run(ctx):
     shards = ctx.drive("d15", nshards=16, extra=["--opt", "behaviours=%s;maxiter=2;cases=%s" % (beh, cases)], timeout=7200)
     laws = [s for s in shards if "-laws." in s]
     traces = [s for s in shards if "-laws." not in s]
+    ctx.drift_prefixes = ("Mismatch-",)     # structural deviation from Solver.tla without a property-level reason (see SolverTrace!Reasons)
     ctx.validate("SolverTrace", traces, count=False)
     ntr = 0
     for s in traces:
